@@ -30,7 +30,7 @@ class Contract:
                  str_total=None, allow_unannotated_loops=False, check_termination=True, block=None,
                  replay=None, inline_ctors=(), note=None, trusted=False, canaries=None, macros=None,
                  ghost_pre=(), preds=None, ensures_internal=(), ghost_at=None,
-                 raises_may=None):
+                 raises_may=None, ufuns=None, wired=True):
         self.name = name
         self.params = {k: ty(v) for k, v in params.items()}
         self.returns = ty(returns) if returns else None
@@ -60,6 +60,8 @@ class Contract:
         self.macros = dict(macros or {})
         self.preds = dict(preds or {})
         self.raises_may = dict(raises_may or {})
+        self.ufuns = dict(ufuns or {})
+        self.wired = wired   # False: an attempt that is not part of any check (not locked, not claimed)
         self.ghost_at = dict(ghost_at or {})
         self.ensures_internal = list(ensures_internal)
         self.ghost_pre = list(ghost_pre)
@@ -140,6 +142,31 @@ def locate(name):
         raise LookupError(f"{name} is not a function")
     seg = ast.get_source_segment(src, node)
     return mod, f, node, owner, seg
+
+
+def extract_block(fdef, c, seg):
+    """P-block: a statement of a large function, selected by a structural anchor (the unparsed statement
+    starts with c.block['anchor']).  The block's free variables are the contract's params (typed by the
+    sidecar); what is known about them at block entry is the contract's `requires` -- an ASSUMED entry
+    condition (it is not proved from the code before the block), listed as an assumption."""
+    anchor = c.block["anchor"]
+    hit = None
+    for n in ast.walk(fdef):
+        if isinstance(n, ast.stmt) and n is not fdef:
+            try:
+                if ast.unparse(n).lstrip().startswith(anchor):
+                    hit = n
+                    break
+            except Exception:  # noqa
+                pass
+    if hit is None:
+        raise LookupError(f"block anchor {anchor!r} not found in {c.name}")
+    args = ast.arguments(posonlyargs=[], args=[ast.arg(arg=a) for a in c.params], vararg=None, kwonlyargs=[],
+                         kw_defaults=[], kwarg=None, defaults=[])
+    f2 = ast.FunctionDef(name=fdef.name + "__block", args=args, body=[hit], decorator_list=[], returns=None,
+                         lineno=hit.lineno, col_offset=0, end_lineno=hit.end_lineno, end_col_offset=0, type_params=[])
+    ast.fix_missing_locations(f2)
+    return f2, ast.unparse(hit)
 
 
 # ------------------------------------------------------------------------------------------------
@@ -261,6 +288,8 @@ def generate(name, override=None):
     from vlib.pyvc import builtins as _B
     E._ctr = itertools.count()
     _B._c = itertools.count()
+    if cc.block:
+        fdef, seg = extract_block(fdef, cc, seg)
     eng = E.Engine(REG, CLASSES, name, fdef, cc)
     obs = eng.verify()
     info = {"name": name, "file": os.path.relpath(f, REPO), "lines": [fdef.lineno, fdef.end_lineno],
@@ -299,6 +328,9 @@ def verify(names, pid=None, canaries=False, lock=None):
             s = f"{name}: {a}"
             if s not in res["assumptions"]:
                 res["assumptions"].append(s)
+        if c.block:
+            res["assumptions"].append(f"{name}: P-block '{c.block['anchor']}': entry condition ASSUMED (not proved from the "
+                                      f"code before the block): " + " AND ".join(c.requires)[:600])
         for k, _ in eng.axioms:
             s = f"trusted axiom set {k}"
             if s not in res["assumptions"]:
